@@ -7,7 +7,6 @@ package main
 import (
 	"bufio"
 	"encoding/base64"
-	"encoding/json"
 	"errors"
 	"fmt"
 	"io"
@@ -130,6 +129,7 @@ type httpWorld struct {
 	noRsp []string
 	whipN int
 	liveW []string // locations of live WHIP sessions
+	liveT []string // names of tokens created through the API
 }
 
 func hxGroup() map[string]any {
@@ -150,6 +150,17 @@ func (h *httpWorld) restore() {
 	for _, f := range []string{"rec1.webm", "rec2.webm", "subdir/inner.webm"} {
 		os.WriteFile(filepath.Join(dir, f), []byte("RECORDING-"+f), 0o644)
 	}
+	// a token that really exists in hx (the matrix deletes them)
+	_, hd, _, err := h.srv.Do("POST", "/galene-api/v0/.groups/hx/.tokens/", map[string]string{"Authorization": h.srv.AdminAuth()["Authorization"], "Content-Type": "application/json"},
+		[]byte(`{"permissions":["message"],"expires":"2100-01-01T00:00:00Z"}`))
+	if err == nil && hd != nil && hd.Get("Location") != "" {
+		h.mu.Lock()
+		h.liveT = append(h.liveT, hd.Get("Location"))
+		if len(h.liveT) > 3 {
+			h.liveT = h.liveT[1:]
+		}
+		h.mu.Unlock()
+	}
 }
 
 func writeHTTPGroups(s *vsrv.Server) {
@@ -168,6 +179,11 @@ func segValue(class string, kind byte, raw bool, h *httpWorld, r *rand.Rand) str
 		case 'u':
 			return []string{"op1", "msg1", "recorder"}[r.IntN(3)]
 		case 't':
+			h.mu.Lock()
+			defer h.mu.Unlock()
+			if len(h.liveT) > 0 && r.IntN(4) != 0 {
+				return h.liveT[r.IntN(len(h.liveT))]
+			}
 			return []string{"tok-h1", "tok-h2"}[r.IntN(2)]
 		case 'f':
 			return []string{"rec1.webm", "rec2.webm", "subdir", "subdir/inner.webm"}[r.IntN(4)]
@@ -381,8 +397,13 @@ func (h *httpWorld) pathFor(c httpCase, sh shapeT, r *rand.Rand) string {
 			g = "whipg/none"
 		}
 	case "static":
-		if c.Seg == "existing" {
-			g = []string{"", "index.html", "galene.html", "404.html"}[r.IntN(4)]
+		switch c.Seg {
+		case "existing":
+			g = []string{"", "index.html", "galene.html", "404.html", "third-party", "third-party/", "example/"}[r.IntN(7)]
+		case "dotdot", "pct-dotdot":
+			if r.IntN(2) == 0 {
+				g = "third-party/" + g
+			}
 		}
 	case "recordings/root":
 		if c.Seg == "existing" {
@@ -452,7 +473,9 @@ func (h *httpWorld) rawRequest(method, target string, hdr map[string]string, bod
 	if err != nil && line == "" {
 		return "", err
 	}
-	io.Copy(io.Discard, io.LimitReader(br, 4<<20))
+	if !strings.Contains(line, " 101 ") {
+		io.Copy(io.Discard, io.LimitReader(br, 4<<20))
+	}
 	return strings.TrimRight(line, "\r\n"), nil
 }
 
@@ -495,21 +518,20 @@ func (h *httpWorld) runCase(c httpCase) {
 	}
 	h.run.Note(fmt.Sprintf("http case %d raw=%v %s %s cred=%s hdr=%s body=%s(%d bytes)", c.N, c.Raw, c.Method, abbrevS(target), c.Cred, c.Hdr, c.Body, len(body)))
 	status := 0
-	raw := c.Raw || len(body) > 1<<20
+	raw := c.Raw || len(body) > 1<<20 || c.Hdr == "weird-headers"
+	if !raw {
+		if _, err := http.NewRequest(c.Method, h.srv.URL(target), nil); err != nil {
+			raw = true // net/http refuses to build it: say it by hand
+		}
+	}
 	if !raw {
 		st, rh, _, err := h.srv.Do(c.Method, target, hdr, body)
 		if err != nil {
-			var ue interface{ Unwrap() error }
-			harnessSide := strings.Contains(err.Error(), "invalid") || strings.Contains(err.Error(), "net/http: invalid") || strings.Contains(err.Error(), "parse ") || strings.Contains(err.Error(), "malformed") || strings.Contains(err.Error(), "unsupported protocol")
-			_ = ue
-			if harnessSide {
-				raw = true // net/http refused to send it: say it by hand
-			} else {
-				h.run.Eval(1)
-				h.run.Count("http_requests", 1)
-				h.report(c, sh, err.Error(), target, err)
-				return
-			}
+			// net/http's client also fails on things that are no missing response (a Location
+			// header it cannot parse, a header value it refuses to send): the hand-written
+			// request decides
+			raw = true
+			h.run.Count("http_client_errors_rechecked_by_hand", 1)
 		} else {
 			status = st
 			if c.Shape == "group/whip" && st == http.StatusCreated {
@@ -714,18 +736,32 @@ func (h *httpWorld) whipSession(i int) {
 		func() {
 			do("patch-huge", "PATCH", loc, ph(nil), []byte("a=ice-ufrag:"+strings.Repeat("u", 1024*1024+5)))
 		},
-		func() { do("patch-if-match-wrong", "PATCH", loc, ph(map[string]string{"If-Match": `"nope"`}), frag(ufrag, pwd, "")) },
-		func() { do("patch-if-match-right", "PATCH", loc, ph(map[string]string{"If-Match": etag}), frag(ufrag, pwd, "")) },
-		func() { do("patch-wrong-ctype", "PATCH", loc, map[string]string{"Content-Type": "application/sdp"}, frag(ufrag, pwd, "")) },
-		func() { do("patch-no-auth", "PATCH", loc, map[string]string{"Content-Type": "application/trickle-ice-sdpfrag"}, frag(ufrag, pwd, "")) },
+		func() {
+			do("patch-if-match-wrong", "PATCH", loc, ph(map[string]string{"If-Match": `"nope"`}), frag(ufrag, pwd, ""))
+		},
+		func() {
+			do("patch-if-match-right", "PATCH", loc, ph(map[string]string{"If-Match": etag}), frag(ufrag, pwd, ""))
+		},
+		func() {
+			do("patch-wrong-ctype", "PATCH", loc, map[string]string{"Content-Type": "application/sdp"}, frag(ufrag, pwd, ""))
+		},
+		func() {
+			do("patch-no-auth", "PATCH", loc, map[string]string{"Content-Type": "application/trickle-ice-sdpfrag"}, frag(ufrag, pwd, ""))
+		},
 		func() { do("options", "OPTIONS", loc, ph(map[string]string{"Origin": "https://evil.example"}), nil) },
 		func() { do("get", "GET", loc, ph(nil), nil) },
 		func() { do("brew", "BREW", loc, ph(nil), []byte("x")) },
 		func() { do("post-on-resource", "POST", loc, hdr, []byte(h.offer)) },
-		func() { do("second-post-same-group", "POST", ep, hdr, []byte(mutateSDP(h.offer, sdpMutations[1+r.IntN(len(sdpMutations)-1)], r))) },
+		func() {
+			do("second-post-same-group", "POST", ep, hdr, []byte(mutateSDP(h.offer, sdpMutations[1+r.IntN(len(sdpMutations)-1)], r)))
+		},
 		func() { do("delete-if-match-wrong", "DELETE", loc, ph(map[string]string{"If-Match": `"nope"`}), nil) },
-		func() { do("patch-garbage-id", "PATCH", ep+"/"+segValue("nonexistent", 'i', false, h, r), ph(nil), frag(ufrag, pwd, "")) },
-		func() { do("delete-garbage-id", "DELETE", ep+"/"+segValue("nonexistent", 'i', false, h, r), ph(nil), nil) },
+		func() {
+			do("patch-garbage-id", "PATCH", ep+"/"+segValue("nonexistent", 'i', false, h, r), ph(nil), frag(ufrag, pwd, ""))
+		},
+		func() {
+			do("delete-garbage-id", "DELETE", ep+"/"+segValue("nonexistent", 'i', false, h, r), ph(nil), nil)
+		},
 	}
 	n := 3 + r.IntN(6)
 	for k := 0; k < n; k++ {
@@ -779,7 +815,7 @@ func (h *httpWorld) scanLog() {
 			msg = msg[i+2:]
 		}
 		h.run.Violation("http-panic:"+frame, "a request handler panicked (net/http recovered it, the client got no response): "+msg+" at "+frame,
-			map[string]any{"tier": "http", "batch": h.batch, "pass": h.pass, "log_entry": abbrevS(entry[:min(len(entry), 1500)]), "requests_without_response": nr})
+			map[string]any{"tier": "http", "batch": h.batch, "pass": h.pass, "log_entry": entry[:min(len(entry), 3500)], "requests_without_response": nr})
 	}
 	h.run.Count("server_log_scans", 1)
 }
@@ -821,5 +857,3 @@ func (h *httpWorld) runAll(cases []httpCase, malformed, whip int) {
 	close(ch)
 	wg.Wait()
 }
-
-var _ = json.Marshal
